@@ -26,9 +26,13 @@ try:
     tmpdemo = os.path.join(tmp, "demo.py")
     open(tmpdemo, "w").write(txt2)
     r0 = subprocess.run(["/venv/bin/python", tmpdemo], env=env, cwd=tmp, capture_output=True, text=True)
-    ap = subprocess.run(["git", "-C", repo, "apply", os.path.join(dst, "patch.diff")])
+    # a seed written against an earlier /repo may have been ported by hand to the lines a later "fix:" commit rewrote
+    patch = os.path.join(dst, "patch_ported.diff")
+    if not os.path.exists(patch):
+        patch = os.path.join(dst, "patch.diff")
+    ap = subprocess.run(["git", "-C", repo, "apply", patch])
     if ap.returncode != 0:  # the seed was written against the pinned commit; /repo has "fix:" commits on top
-        subprocess.run(["git", "-C", repo, "apply", "-3", os.path.join(dst, "patch.diff")], check=True)
+        subprocess.run(["git", "-C", repo, "apply", "-3", patch], check=True)
     r1 = subprocess.run(["/venv/bin/python", tmpdemo], env=env, cwd=tmp, capture_output=True, text=True)
     t = subprocess.run(["/venv/bin/python", "-m", "pytest", "-q", "-p", "no:cacheprovider", "--timeout=900"], cwd=repo,
                        capture_output=True, text=True, env=env)
